@@ -208,8 +208,7 @@ theorem classFree_valueOk (L : Lists) (c : Cfg) (n : Str) (h : classFree L c n =
     valueOk L c n className v = true := by
   unfold classFree at h
   simp only [Bool.and_eq_true, Option.isNone_iff_eq_none] at h
-  unfold valueOk denied
-  rw [h.2]
+  rw [valueOk_eq_model, denied_eq_model, h.2]
   simp only [schemesPass, Bool.and_true, Bool.not_eq_true']
   cases hd : (c.denySchemes.bind (mapGet · n)).bind (mapGet · className) with
   | none => rfl
@@ -261,6 +260,6 @@ theorem settled_of_settledB (L : Lists) (c : Cfg) (h : settledB L c = true) : Se
     · simp [hasAttrRepl, e3, e4]
     · intro v
       apply classFree_valueOk
-      simp [classFree, e5, schemeList, schemeCtx, attrSchemes, e6, e7, e8]
+      simp [classFree, e5, schemeList_eq_model, schemeCtx, attrSchemes, e6, e7, e8]
 
 end Ruma.Lemmas.Html
